@@ -1,8 +1,9 @@
 #!/bin/sh
 # run every check (tier $1, default quick) on the current tree and summarise
 TIER=${1:-quick}
-cd /verif
+cd "$(dirname "$0")/.."
+mkdir -p /tmp/vh
 for i in 01 02 03 04 05 06 07 08 09 10 11 12 13 14 15 16 17 18 19 20; do
-  ./check C$i --tier $TIER > /tmp/vh/runall_C$i.log 2>&1
-  echo "C$i exit=$? $(grep RESULT /tmp/vh/runall_C$i.log | sed 's/.*wall=//')  $(grep -c '^VIOLATION' /tmp/vh/runall_C$i.log) violations $(grep -E 'MACHINERY' /tmp/vh/runall_C$i.log | head -1 | cut -c1-150)"
+  ./check C$i --tier $TIER > /tmp/vh/runall_${TIER}_C$i.log 2>&1
+  echo "C$i exit=$? $(grep RESULT /tmp/vh/runall_${TIER}_C$i.log | sed 's/.*wall=//')  $(grep -c '^VIOLATION' /tmp/vh/runall_${TIER}_C$i.log) violations $(grep -E 'MACHINERY' /tmp/vh/runall_${TIER}_C$i.log | head -1 | cut -c1-150)"
 done
